@@ -8,6 +8,9 @@ from vt.harness.common import ob, rerun_sets
 from vt.monitors import C17Rerun, OracleTracker, count
 
 
+OWN_THOROUGH = True
+
+
 def rerun_twin(ch, ctx, did, steps, mode="explicit", ghost=False, twin=False, rerun_order=True, statuses=None):
     wf = defs.get(did)
     sts = tuple(statuses) if statuses else (S.SUCCEEDED, S.FAILED)
